@@ -223,6 +223,61 @@ func (e *lifeEnv) exec(line string, salt int) (res string) {
 	case "lf-open":
 		e.st.Open()
 		return e.render()
+	case "lf-open-end":
+		// the stream of VB ends (cause) right after its own request was accepted, while the requests of the
+		// other assigned vBuckets are still in flight
+		vb := uint16(u64(t[1]))
+		var err error
+		switch t[2] {
+		case "transient":
+			err = transientErrs[salt%len(transientErrs)]
+		case "closed":
+			err = gocbcore.ErrDCPStreamClosed
+		case "final":
+			err = finalErrs[salt%len(finalErrs)]
+		}
+		ended := make(chan struct{})
+		var once sync.Once
+		e.cl.mu.Lock()
+		if e.cl.holdOpen == nil {
+			e.cl.holdOpen = map[uint16]chan struct{}{}
+		}
+		e.disc.mu.Lock()
+		for _, v := range e.disc.vbs {
+			if v != vb {
+				e.cl.holdOpen[v] = make(chan struct{})
+			}
+		}
+		e.disc.mu.Unlock()
+		e.cl.openHook = func(v uint16) {
+			if v == vb {
+				once.Do(func() {
+					go func() {
+						if o := e.cl.observer(vb); o != nil {
+							e.cl.markEnded(vb)
+							o.End(models.DcpStreamEnd{VbID: vb}, err)
+						}
+						time.Sleep(5 * time.Millisecond)
+						close(ended)
+						e.cl.releaseHolds()
+					}()
+				})
+			}
+		}
+		e.cl.mu.Unlock()
+		go func() {
+			select {
+			case <-ended:
+			case <-time.After(2 * time.Second):
+				e.cl.releaseHolds()
+			}
+		}()
+		e.st.Open()
+		e.cl.mu.Lock()
+		e.cl.openHook = nil
+		e.cl.mu.Unlock()
+		time.Sleep(15 * time.Millisecond) // wait() / reopenStream run in their own goroutines
+		return e.render()
 	case "lf-notify", "lf-notify-api":
 		if t[0] == "lf-notify-api" && !e.st.IsOpen() {
 			return "skipped"
@@ -313,6 +368,7 @@ func (e *lifeEnv) exec(line string, salt int) (res string) {
 		case "final":
 			err = finalErrs[salt%len(finalErrs)]
 		}
+		e.cl.markEnded(vb) // a transient end is re-requested: OpenStream clears the mark again
 		o.End(models.DcpStreamEnd{VbID: vb}, err)
 		time.Sleep(15 * time.Millisecond) // reopenStream / wait() run in their own goroutines
 		return e.render()
@@ -469,7 +525,18 @@ func genLife(r *Rng, kind string) lifeCase {
 			add(fmt.Sprintf("lf-store %d %d", vb, 1+r.Intn(50)))
 		}
 	}
-	add("lf-open")
+	openEnded := -1
+	if kind == "end" && n > 1 && r.Chance(35) {
+		openEnded = lo + r.Intn(n)
+		oc := r.Pick("final", "clean", "closed")
+		add(fmt.Sprintf("lf-open-end %d %s", openEnded, oc))
+		tag["open-end."+oc] = true
+		if oc == "transient" {
+			openEnded = -1
+		}
+	} else {
+		add("lf-open")
+	}
 	cycles := 0 // completed rebalance cycles (first-ever one has a nil timer)
 	chain := 0
 	inWindow := false
@@ -477,6 +544,9 @@ func genLife(r *Rng, kind string) lifeCase {
 	closed := false
 	noShutdown := false // a re-armed Rebalance timer may still be pending: a shutdown would let it fire into the closed stream
 	ended := map[int]bool{}
+	if openEnded >= 0 {
+		ended[openEnded] = true
+	}
 	curLo, curHi := lo, hi
 	steps := 4 + r.Intn(8)
 	for i := 0; i < steps && !closed; i++ {
